@@ -7,10 +7,9 @@ import Mathlib.Tactic.Ring
 /-!
 # C13: lemmas for `clip` / `closestPointOnBox` (nearest-point facts)
 
-`closestPointOnBox_cases` is an induction principle over the 69 extracted paths: every path is
-the empty-box early return, the clip of an outside point, or an inside point moved to the face
-with the smallest of the six face distances.  The property theorems are derived from it, so the
-extracted tree is walked once.
+Gen-free mathematics: the per-axis clamp is nearest; `InsideChoice` (an interior point moved to the face with the
+smallest of the six face distances) is on the surface and nearest among surface points.  The induction principle
+over the 69 extracted paths of `closestPointOnBox` (`Box3.closestPointOnBox_cases`) lives in Props/C13.lean.
 -/
 set_option linter.unusedTactic false
 set_option linter.unreachableTactic false
@@ -44,43 +43,6 @@ def Box3.InsideChoice [LE α] [Sub α] (p : V3 α) (b : Box3 α) (q : V3 α) : P
   (q = ⟨p.x, b.max.y, p.z⟩ ∧ (b.max.y - p.y) ≤ (p.x - b.min.x) ∧ (b.max.y - p.y) ≤ (b.max.x - p.x) ∧ (b.max.y - p.y) ≤ (p.y - b.min.y) ∧ (b.max.y - p.y) ≤ (p.z - b.min.z) ∧ (b.max.y - p.y) ≤ (b.max.z - p.z)) ∨
   (q = ⟨p.x, p.y, b.min.z⟩ ∧ (p.z - b.min.z) ≤ (p.x - b.min.x) ∧ (p.z - b.min.z) ≤ (b.max.x - p.x) ∧ (p.z - b.min.z) ≤ (p.y - b.min.y) ∧ (p.z - b.min.z) ≤ (b.max.y - p.y) ∧ (p.z - b.min.z) ≤ (b.max.z - p.z)) ∨
   (q = ⟨p.x, p.y, b.max.z⟩ ∧ (b.max.z - p.z) ≤ (p.x - b.min.x) ∧ (b.max.z - p.z) ≤ (b.max.x - p.x) ∧ (b.max.z - p.z) ≤ (p.y - b.min.y) ∧ (b.max.z - p.z) ≤ (b.max.y - p.y) ∧ (b.max.z - p.z) ≤ (p.z - b.min.z))
-
-set_option maxHeartbeats 1600000 in
-theorem Box3.closestPointOnBox_cases [LinearOrder α] [Sub α] (p : V3 α) (b : Box3 α) (P : V3 α → Prop)
-    (hE : Box3.Inverted b → P p)
-    (hO : ¬ Box3.Inverted b → ¬ Box3.Mem p b → P (Box3.clipN p b))
-    (hI : ¬ Box3.Inverted b → Box3.Mem p b → ∀ q, Box3.InsideChoice p b q → P q) :
-    P (Gen.Box3.closestPointOnBox p b) := by
-  unfold Gen.Box3.closestPointOnBox
-  extract_lets t1 t2 t3 t4 t5 t6
-  repeat' (apply ite_ind P <;> intro _)
-  -- the three early returns of an inverted box
-  all_goals first
-    | exact hE (Or.inl (by assumption))
-    | exact hE (Or.inr (Or.inl (by assumption)))
-    | exact hE (Or.inr (Or.inr (by assumption)))
-    | skip
-  all_goals
-    have hni : ¬ Box3.Inverted b := by
-      simp only [Box3.Inverted, not_or]; refine ⟨?_, ?_, ?_⟩ <;> assumption
-  all_goals first
-    | -- p inside: one coordinate moved to the nearest face
-      (have hm : Box3.Mem p b := by
-         refine ⟨⟨?_, ?_⟩, ⟨?_, ?_⟩, ⟨?_, ?_⟩⟩ <;> exact not_lt.mp (by assumption)
-       simp only [t1, t2, t3, t4, t5, t6] at *
-       apply hI hni hm
-       unfold Box3.InsideChoice
-       first
-        | (left; refine ⟨rfl, ?_⟩; simp only [← le_min_iff]; order)
-        | (right; left; refine ⟨rfl, ?_⟩; simp only [← le_min_iff]; order)
-        | (right; right; left; refine ⟨rfl, ?_⟩; simp only [← le_min_iff]; order)
-        | (right; right; right; left; refine ⟨rfl, ?_⟩; simp only [← le_min_iff]; order)
-        | (right; right; right; right; left; refine ⟨rfl, ?_⟩; simp only [← le_min_iff]; order)
-        | (right; right; right; right; right; refine ⟨rfl, ?_⟩; simp only [← le_min_iff]; order))
-    | -- p outside: the result is the clip
-      (have e := hO hni (by rintro ⟨⟨m1, m2⟩, ⟨m3, m4⟩, ⟨m5, m6⟩⟩; order)
-       simp only [Box3.clipN, sclamp, *, if_true, if_false] at e
-       exact e)
 
 section ring
 variable [CommRing α] [LinearOrder α] [IsStrictOrderedRing α]
